@@ -4,14 +4,19 @@ set -e
 cd /verif
 export GOFLAGS=-mod=mod GOPROXY=off GOSUMDB=off GOTOOLCHAIN=local PATH=/verif/.work/gobin:$PATH
 h=$1
+python3 - <<'PY'
+import sys
+sys.argv=['check']
+exec(open('/verif/check').read().split('if __name__')[0])
+ov,_=weave('/verif/.work', ALL_WOVEN, ['concurrency/dir'])
+PY
 go test -c -tags unit -overlay .work/overlay.json -o .work/$h.test ./harness/$h/
 rm -rf .work/replays-dev; 
-VERIF_SEED=$2 VERIF_FROM=$3 VERIF_TO=$4 VERIF_TIER=${5:-quick} VERIF_REPLAY_DIR=/verif/.work/replays-dev GOMAXPROCS=1 timeout 600 .work/$h.test -test.run TestWorker -test.timeout 0 2>&1 | python3 -c "
+VERIF_SEED=$2 VERIF_FROM=$3 VERIF_TO=$4 VERIF_TIER=${5:-quick} VERIF_OUT=/verif/.work/dev-out.json VERIF_SCRATCH=/verif/.work/dev-scratch VERIF_REPLAY_DIR=/verif/.work/replays-dev GOMAXPROCS=1 timeout 900 .work/$h.test -test.run TestWorker -test.timeout 0 2>&1 | tail -50 | python3 -c "
 import sys,json
 raw=sys.stdin.read()
-i=raw.find('{')
 try:
-  d=json.loads(raw[i:raw.rfind('}')+1])
+  d=json.load(open('/verif/.work/dev-out.json'))
   for k in ['runs','nontrivial_runs','steps','switches','sim_time_ns','leaked_runs','faults','probes','violations_by_signature','distinct_local','wall_s']: print(k,d[k])
   for v in d['violations'][:6]: print(v)
   for v in d['samples'][:2]: print(v)
